@@ -77,6 +77,37 @@ Theorem C11_waiting_accepts_any_start : forall f l,
 Proof. exact waiting_accepts_any_start. Qed.
 Print Assumptions C11_waiting_accepts_any_start.
 
+(* How long the left-out relayer keeps waiting ([tm] = the two configured durations, arrival times
+   measured from the start of the wait): its wait is bounded by the TSS timeout, NOT by the
+   coordinator timeout - whatever coord_to is, a start message (from anybody) that arrives before
+   tss_to, preceded only by initiate messages (which it answers), starts the process with the
+   message's params ... *)
+Theorem C11_left_out_honours_start : forall tm pre at_ f l post,
+  Forall (early_initiate (tss_to tm)) pre -> (at_ < tss_to tm)%N ->
+  In (false, l) (runs_of (fst (left_out_wait tm (pre ++ (at_, MStart f (Some l)) :: post)))).
+Proof. exact left_out_honours_start. Qed.
+Print Assumptions C11_left_out_honours_start.
+
+(* ... and it does give up: a message arriving at or after tss_to finds the session over (ended by a
+   ticker: CoordinatorError / "tss process timed out"). *)
+Theorem C11_left_out_gives_up : forall tm at_ m r,
+  (tss_to tm <= at_)%N -> left_out_wait tm ((at_, m) :: r) = ([], true).
+Proof. exact left_out_gives_up. Qed.
+Print Assumptions C11_left_out_gives_up.
+
+(* A relayer that lost the re-election knows the new coordinator and waits for it only for the
+   coordinator timeout (as start() does in every attempt). *)
+Theorem C11_start_wait_gives_up : forall tm c2 at_ m r,
+  (coord_to tm <= at_)%N -> retry_start_wait tm c2 ((at_, m) :: r) = ([], true).
+Proof. exact start_wait_gives_up. Qed.
+Print Assumptions C11_start_wait_gives_up.
+
+(* The judge's clause for the left-out relayer holds of the model for ALL timed message streams. *)
+Theorem C11_left_out_judge_model : forall tm msgs,
+  honoured (tss_to tm) msgs (runs_of (fst (left_out_wait tm msgs))) = true.
+Proof. exact left_out_honours. Qed.
+Print Assumptions C11_left_out_judge_model.
+
 (* Key generation and resharing (not retryable): the error is returned, whatever it is. *)
 Theorem C11_non_retryable_never_retries : forall holders e, after_failure false holders e = Returned.
 Proof. exact non_retryable_never_retries. Qed.
@@ -84,17 +115,17 @@ Print Assumptions C11_non_retryable_never_retries.
 
 (* The judge used on the implementation's observations accepts the model's whole session for every
    input (hypotheses: this relayer holds a key and is not named as a culprit) ... *)
-Theorem C11_spec_ok_model : forall (key : peer -> N) holders t self retryable runs1 e winner ready2 msgs2,
+Theorem C11_spec_ok_model : forall (key : peer -> N) tm holders t self retryable runs1 e winner ready2 msgs2,
   In self holders ->
   (forall ps, classify e = RetryExcluding ps -> ~ In self ps) ->
-  spec_ok holders retryable e (length runs1)
-    (continue key classify holders t self retryable runs1 e winner ready2 msgs2) = true.
+  spec_ok tm msgs2 holders retryable e (length runs1)
+    (continue key tm classify holders t self retryable runs1 e winner ready2 msgs2) = true.
 Proof. exact spec_ok_model. Qed.
 Print Assumptions C11_spec_ok_model.
 
 (* ... and what it accepts means what the property says. *)
-Theorem C11_judge_retry_sound : forall holders nfirst o ps,
-  obs_allows holders nfirst o (RetryExcluding ps) = true ->
+Theorem C11_judge_retry_sound : forall tm msgs2 holders nfirst o ps,
+  obs_allows tm msgs2 holders nfirst o (RetryExcluding ps) = true ->
   exists cs, o_elected o = Some cs
     /\ (forall p, In p ps -> ~ In p cs)
     /\ (forall p, In p holders -> ~ In p ps -> In p cs)
@@ -102,14 +133,22 @@ Theorem C11_judge_retry_sound : forall holders nfirst o ps,
 Proof. exact obs_allows_retry_sound. Qed.
 Print Assumptions C11_judge_retry_sound.
 
-Theorem C11_judge_giveup_sound : forall holders nfirst o,
-  obs_allows holders nfirst o GiveUp = true ->
+Theorem C11_judge_giveup_sound : forall tm msgs2 holders nfirst o,
+  obs_allows tm msgs2 holders nfirst o GiveUp = true ->
   o_elected o = None /\ skipn nfirst (o_runs o) = [] /\ o_final o = FOriginal.
 Proof. exact obs_allows_giveup_sound. Qed.
 Print Assumptions C11_judge_giveup_sound.
 
-Theorem C11_judge_wait_sound : forall holders nfirst o,
-  obs_allows holders nfirst o WaitForStart = true -> o_elected o = None /\ o_final o <> FOriginal.
+(* left out: no election, the session does not end with the failure, and a well-formed start message
+   that arrives (after initiate messages only) before the session's TSS timeout was honoured by a Run
+   with its params *)
+Theorem C11_judge_wait_sound : forall tm msgs2 holders nfirst o,
+  obs_allows tm msgs2 holders nfirst o WaitForStart = true ->
+  o_elected o = None /\ o_final o <> FOriginal
+  /\ (forall pre at_ f l post,
+        msgs2 = pre ++ (at_, MStart f (Some l)) :: post ->
+        Forall (early_initiate (tss_to tm)) pre -> (at_ < tss_to tm)%N ->
+        exists r, In r (skipn nfirst (o_runs o)) /\ snd r = l).
 Proof. exact obs_allows_wait_sound. Qed.
 Print Assumptions C11_judge_wait_sound.
 
@@ -138,5 +177,10 @@ Example C11_nonvacuous :
   /\ snd (initiate key [0; 1; 2; 3]%N 1%Z [2%N] [1%N] [2; 3; 0]%N) = Some [1; 3]%N
   /\ classify (pool_join [Node (KTss [3%N] true) [Node KSubset []]]) = RetryExcluding [3%N]
   /\ classify (pool_join [Node KOther []]) = GiveUp
-  /\ old_classify e = GiveUp.
+  /\ old_classify e = GiveUp
+  (* left out with CoordinatorTimeout 40 << start after 450 << TssTimeout 20000: still joined;
+     a start after the TSS timeout: given up *)
+  /\ left_out_wait (mkTiming 40 20000) [(200, MInitiate 3); (450, MStart 3 (Some [3; 0]))]%N = ([OReady 3; ORun [3; 0]]%N, false)
+  /\ left_out_wait (mkTiming 3600000 2000) [(6000, MStart 3 (Some [3; 0]))]%N = ([], true)
+  /\ honoured 20000 [(200, MInitiate 3); (450, MStart 3 (Some [3; 0]))]%N [(true, [0; 1]%N)] = false.
 Proof. vm_compute. repeat split. Qed.
